@@ -97,6 +97,11 @@ def _run(case):
             check(fails, "product.evaluate", got, np.exp(want), np.exp(want) * scale)
         if not libx.snapshot_equal(snap_m, libx.primary_snapshot(m)):
             fails.append(Failure("product:operand_mutated", "measure parameters changed by product()"))
+        # the result is an object of its own: normalising it in place must not touch the operand
+        ok, _ = lib(fails, "product.normalize_result", lambda: res.normalize())
+        ok, got = lib(fails, "measure.evaluate_ln_after", lambda: m.evaluate_ln(J(x)))
+        if ok:
+            check(fails, "product:operand_changed_via_result", got, lnu, su)
         return fails
 
     Lf, nuf, lbf = libx.factor_params_np(case["fkind"], case["f"])
@@ -147,10 +152,14 @@ def _run(case):
         fails.append(Failure(f"{tag}:measure_mutated", f"measure parameters changed by {op}"))
     if not libx.snapshot_equal(snap_f, libx.primary_snapshot(f)):
         fails.append(Failure(f"{tag}:factor_mutated", f"factor parameters changed by {op}"))
-    # operands still evaluate to the same functions
+    # operands still evaluate to the same functions - also after the result has been normalised in place
+    lib(fails, f"{tag}.normalize_result", lambda: res.normalize())
     ok, got = lib(fails, "measure.evaluate_ln_after", lambda: m.evaluate_ln(J(x)))
     if ok:
         check(fails, "measure.evaluate_ln_after", got, lnu, su)
+    ok, got = lib(fails, "factor.evaluate_ln_after", lambda: f.evaluate_ln(J(x)))
+    if ok:
+        check(fails, "factor.evaluate_ln_after", got, lnf, sf)
     return fails
 
 
